@@ -1,0 +1,22 @@
+// +build verif
+
+package ports
+
+import (
+	"sync"
+
+	"github.com/brewlin/net-protocol/pkg/verifhook"
+)
+
+func verifYield(site string) { verifhook.Do(site) }
+
+func verifLock(l *sync.RWMutex, site string) { verifhook.Lock(l, true, site) }
+
+// verifEphemeralOffset lets the simulator choose the starting offset of the
+// ephemeral port search instead of the unseeded math/rand draw.
+func verifEphemeralOffset(offset, count uint16) uint16 {
+	if v, ok := verifhook.Pick("ports.ephemeral.offset", uint32(count)); ok {
+		return uint16(v)
+	}
+	return offset
+}
